@@ -94,6 +94,20 @@ func (vc *VC) execCall(fr *frame, n *Node, x *ssa.Call) {
 			}
 		}
 		vc.bindResult(n, x, sig, rs)
+		if x.Parent() == vc.fn {
+			// aftercall("invoke.M", e): the state right after the function's single dynamic call of method M
+			if vc.callSt == nil {
+				vc.callSt = map[string]*State{}
+			}
+			if vc.callRes == nil {
+				vc.callRes = map[string][]Val{}
+				vc.callCount = map[string]int{}
+			}
+			key := "invoke." + name
+			vc.callSt[key] = n.st.clone()
+			vc.callRes[key] = rs
+			vc.callCount[key]++
+		}
 		return
 	}
 	callee := c.StaticCallee()
